@@ -238,10 +238,12 @@ def value_aliases(fnode):
                 if isinstance(a, ast.Name):
                     cnt[a.id] = cnt.get(a.id, 0) + 1
                     val[a.id] = ast.Subscript(value=copy.deepcopy(n.value), slice=ast.Constant(value=i), ctx=ast.Load())
-        elif isinstance(n, (ast.For, ast.comprehension)):
+        elif isinstance(n, ast.For):
             for x in ast.walk(n.target):
                 if isinstance(x, ast.Name):
                     cnt[x.id] = cnt.get(x.id, 0) + 2
+        elif isinstance(n, ast.comprehension):
+            pass   # a comprehension's variable lives in the comprehension's own scope (substitution respects that: see full())
         elif isinstance(n, ast.AugAssign) and isinstance(n.target, ast.Name):
             cnt[n.target.id] = cnt.get(n.target.id, 0) + 2
         elif isinstance(n, (ast.FunctionDef, ast.Lambda)) and n is not fnode:
@@ -310,8 +312,32 @@ def outcomes(stmts, al=None):
 def full(e, val, depth=4):
     """source of expression `e` (node or source text) with value_aliases substituted (calls and subscripts included)"""
     class Sub(ast.NodeTransformer):
+        shadow = ()
+
         def visit_Name(self, n):
-            return copy.deepcopy(val[n.id]) if n.id in val else n
+            return copy.deepcopy(val[n.id]) if n.id in val and n.id not in self.shadow else n
+
+        def _comp(self, n):
+            # names bound by the comprehension's own clauses are not the function's locals of the same name
+            own = {x.id for g in n.generators for x in ast.walk(g.target) if isinstance(x, ast.Name)}
+            first = n.generators[0]
+            first.iter = self.visit(first.iter)   # the outermost iterable is evaluated in the enclosing scope
+            old = self.shadow
+            self.shadow = tuple(set(old) | own)
+            try:
+                for i, g in enumerate(n.generators):
+                    if i:
+                        g.iter = self.visit(g.iter)
+                    g.ifs = [self.visit(c) for c in g.ifs]
+                if isinstance(n, ast.DictComp):
+                    n.key, n.value = self.visit(n.key), self.visit(n.value)
+                else:
+                    n.elt = self.visit(n.elt)
+            finally:
+                self.shadow = old
+            return n
+
+        visit_ListComp = visit_SetComp = visit_GeneratorExp = visit_DictComp = _comp
 
     t = ast.parse(e, mode="eval").body if isinstance(e, str) else copy.deepcopy(e)
     for _ in range(depth):
